@@ -166,6 +166,9 @@ static int flat_pkt(const unsigned char *d,size_t n,int feed,flat_t *out){
     }
     if(pr<0){ snprintf(out->err,sizeof out->err,"sync hole at %zu",fed); rc=-1; break; }
     if(ogg_page_bos(&og)){
+      { /* a BOS page of a stream that is not Vorbis (multiplexed foreign stream) starts nothing */
+        ogg_stream_state ts; ogg_packet tp; ogg_stream_init(&ts,ogg_page_serialno(&og)); int isv=0; if(ogg_stream_pagein(&ts,&og)==0 && ogg_stream_packetpeek(&ts,&tp)==1) isv=vorbis_synthesis_idheader(&tp); ogg_stream_clear(&ts);
+        if(!isv) continue; }
       if(have_dec){ vorbis_block_clear(&vb); vorbis_dsp_clear(&vd); have_dec=0; }
       if(have_os){ ogg_stream_clear(&os); vorbis_comment_clear(&vc); vorbis_info_clear(&vi); }
       ogg_stream_init(&os,ogg_page_serialno(&og)); have_os=1; hdr=0; link++;
@@ -225,7 +228,14 @@ static void case_c10(const drvargs_t *a,long id){
   chain_describe(&cd,desc,sizeof desc);
   if(id%4==3){ if(build_chain_mixed(&r,&cd,pick_modelmask(&r,cd.nlinks),40,8,&phys,NULL,desc,sizeof desc)){ res_sample("refused: %s",desc); res_end(); buf_free(&phys); return; } }
   else
-  if(build_chain(&cd,&phys,NULL)){ res_sample("encoder refused: %s",desc); res_end(); buf_free(&phys); return; }
+  { size_t loff10[VH_MAXLINKS+1]; int rc= (id%6==5)? build_chain(&cd,&phys,loff10) : build_chain(&cd,&phys,NULL);
+    if(rc){ res_sample("encoder refused: %s",desc); res_end(); buf_free(&phys); return; }
+    if(id%6==5){ /* links with a foreign logical stream multiplexed in; its BOS page before or after the Vorbis one, its end before or after the Vorbis EOS page */
+      buf_t q; buf_init(&q); size_t dl=strlen(desc);
+      for(int i=0;i<cd.nlinks;i++){ buf_t one; one.p=phys.p+loff10[i]; one.n=loff10[i+1]-loff10[i]; one.cap=one.n;
+        if(rng_chance(&r,0.7)){ int where=(int)rng_below(&r,4); mux_add_foreign(&one,0x0f00d100+i,rng_next(&r),where,&q); if(dl+50<sizeof desc) dl+=snprintf(desc+dl,sizeof desc-dl," {link %d +foreign stream, BOS %s}",i,(where&2)?"first":"second"); }
+        else buf_add(&q,one.p,one.n); }
+      buf_free(&phys); phys=q; res_count("streams_with_multiplexed_foreign_streams",1); } }
   vh_dump("stream.ogg",phys.p,phys.n);
   refdec_t ref; if(ref_decode(phys.p,phys.n,0,&ref)){ res_viol("C10","seekable-read-broken","%s: %s",ref.err,desc); res_eval(1); ref_free(&ref); res_end(); buf_free(&phys); return; }
   int nsched=a->thorough?10:5;
